@@ -6,6 +6,16 @@ cd "$(dirname "$0")"
 mkdir -p .work evidence replays
 rc=0
 for f in spec/*.tla; do
+  case "$(basename "$f")" in
+    Apa_*)
+      # Apalache wrappers EXTEND the Apalache module (inside Apalache's own jar): they are type-checked by apalache-mc
+      out=$(cd spec && timeout 300 apalache-mc typecheck --out-dir=../.work/apa-setup "$(basename "$f")" 2>&1) || true
+      rm -rf .work/apa-setup
+      if ! echo "$out" | grep -q "Type checker \[OK\]"; then
+        echo "APALACHE TYPECHECK FAILED: $f"; echo "$out" | tail -20; rc=2
+      fi
+      continue;;
+  esac
   out=$(cd spec && java -cp /opt/veriftools/tla/tla2tools.jar:/opt/veriftools/tla/CommunityModules-deps.jar tla2sany.SANY "$(basename "$f")" 2>&1) || true
   if echo "$out" | grep -q -e "Semantic errors" -e "Parse Error" -e "Fatal errors" -e "\*\*\* Errors"; then
     echo "SANY FAILED: $f"; echo "$out" | tail -20; rc=2
